@@ -687,6 +687,11 @@ def run(repo: Repo, rep):
     r7_no_param_cache(repo, rep)
     from .c08 import r1_sanitiser  # the normalisation layer must see the columns in its domain's order
     r1_sanitiser(repo, rep)
+    from .c17 import r5_point_data  # the box of a partially evaluated product is the box of the Point that replaced the fixed factor: coordinates in space order
+    r5_point_data(repo, rep)
+    from .c13 import r2_r3_mapping, r5_copy_on_partial  # boxes evaluate the shape functions: supplied values win over defaults; evaluated copies keep their own fixed values
+    r2_r3_mapping(repo, rep)
+    r5_copy_on_partial(repo, rep)
 
 
 _CI = "src/torchphysics/problem/domains/domain2D/circle.py"
